@@ -136,7 +136,8 @@ def build(w: dict) -> xarray.Dataset:
             ds = ds.assign_coords({dc["name"]: da})
         else:
             ds[dc["name"]] = da
-            ds = ds.set_coords(dc["name"])
+            if w.get("depth_as", "coords") == "coords":       # (after reset_coords / decode_coords=False they are plain variables)
+                ds = ds.set_coords(dc["name"])
     for v in w["depthvars"]:
         arr = numpy.array([numpy.nan if x == MISSING else float(x) for x in v["data"]], dtype=v["dtype"]).reshape(v["shape"])
         ds[v["name"]] = xarray.DataArray(arr, dims=v["dims"])
@@ -206,6 +207,11 @@ def execute(case: dict) -> dict:
                 cur = r
                 return out
             e["obs"] = outcome(norm)
+        elif e["a"] == "SetPositive":
+            def setpos():
+                cur[names[e["k"] - 1]].attrs["positive"] = e["value"]
+                return {"value": e["value"]}
+            e["obs"] = outcome(setpos)
         elif e["a"] == "Touch":
             def touch():
                 cc = conv_of(cur)
@@ -243,6 +249,8 @@ def cases(tier: str, seed: int, *, kinds=("norm", "floor")) -> list[dict]:
     vias = ["memory", "file", "memory", "dask", "emsopen"]       # how the dataset is held (viafile.hold)
     for k, c in enumerate(out):
         c["world"]["via"] = vias[k % len(vias)]
+        if k % 3 == 1:
+            c["world"]["depth_as"] = "vars"
     return out
 
 
@@ -270,6 +278,10 @@ def _cases(tier: str, seed: int, *, kinds=("norm", "floor")) -> list[dict]:
                 ev.append({"a": "OceanFloor", "via": "accessor"})        # asked again of the same dataset object
             # the depth coordinates of the dataset have been looked at before (same dataset object, same convention object)
             ev.insert(0, {"a": "Touch", "via": "accessor"})
+            if rep % 2 == 0:
+                # ... and then the user corrects the direction attribute of the first depth coordinate IN PLACE
+                d0 = w["depths"][0]
+                ev.insert(1, {"a": "SetPositive", "k": 1, "value": "up" if d0["positive"] == "down" else "down", "via": "in-place"})
             out.append({"src": "gen", "world": w, "events": ev})
     if "norm" in kinds:
         # two coordinates on one depth dimension, through the accessor and through the function
